@@ -112,10 +112,14 @@ def apply_faults(text, faults):
     parents = parent_map(root)
     trunc = None
     removed = []
+    bytelevel = []
     for f in faults:
         k = f['kind']
         if k == 'truncate':
             trunc = f['pos']
+            continue
+        if k in ('prefix', 'badbyte', 'reencode'):
+            bytelevel.append(f)
             continue
         el = els[f['elem']]
         if k == 'rmchild':
@@ -155,7 +159,14 @@ def apply_faults(text, faults):
         p = parents.get(el)
         if p is not None and el in list(p):
             p.remove(el)
-    data = ET.tostring(root, encoding='utf-8', xml_declaration=True)
+    enc = next((f['enc'] for f in bytelevel if f['kind'] == 'reencode'), 'utf-8')
+    data = ET.tostring(root, encoding=enc, xml_declaration=True)
+    for f in bytelevel:
+        if f['kind'] == 'prefix':
+            data = bytes.fromhex(f['hex']) + data
+    for f in bytelevel:
+        if f['kind'] == 'badbyte' and 0 <= f['pos'] < len(data):
+            data = data[:f['pos']] + bytes([f.get('byte', 0xFF)]) + data[f['pos'] + 1:]
     if trunc is not None:
         data = data[:max(0, min(len(data), trunc))]
     return data
@@ -261,9 +272,24 @@ def site_label(f):
     """stable, narrow description of a fault site: kind + element tag (+ attribute / 'text')"""
     if f['kind'] == 'truncate':
         return 'truncate'
+    if f['kind'] == 'prefix':
+        return 'prefix:' + f['hex']
+    if f['kind'] == 'reencode':
+        return 'reencode:' + f['enc']
+    if f['kind'] == 'badbyte':
+        return 'badbyte'
     where = f.get('tag', '?')
     if f.get('attr'):
         where += '@' + f['attr']
     elif f['kind'] in ('nonnum', 'emptytext', 'dangling'):
         where += '/text'
     return '%s:%s' % (f['kind'], where)
+
+
+def nonascii_positions(data):
+    """byte positions inside or next to a multi-byte UTF-8 sequence"""
+    out = set()
+    for i, b in enumerate(data):
+        if b >= 0x80:
+            out.update((i - 1, i, i + 1))
+    return sorted(p for p in out if 0 <= p <= len(data))
